@@ -6,7 +6,7 @@ RUN: harness/xslt.cpp; every lookup is an xsl:variable whose select event carrie
 TV : Trace_C15.tla: delivered = XPathSem!KeyNodes in document order."""
 import os, random, json, subprocess
 from xml.sax.saxutils import quoteattr
-import vlib, xdm, xpgen
+import vlib, xdm, xpgen, tlaparse
 from xpgen import *
 from vlib import ROOT
 from props import c02
@@ -107,22 +107,108 @@ def render(decls, lookups, rng=None):
     return "\n".join(lines) + "\n", lmap, ("\n".join(imp) + "\n") if has_imp else None
 
 
+MC_KEYTABLE = os.path.join(ROOT, "spec/mc/MC_KeyTable.tla")
+
+
+def keytable_model(res, wd, quick):
+    """MC: KeyTableImpl (the transcribed walk, per-document lazily built table, look-up outcomes, FunctionKey's loop) = XSLT 12.2 on every
+    document shape <= N nodes x declaration configurations x table-building orders.  GEN: one document per walk-branch signature (VIEW)."""
+    n = 4 if quick else 5
+    cfg = os.path.join(wd, "keytable_mc.cfg")
+    open(cfg, "w").write("SPECIFICATION Spec\nCONSTANTS N = %d\nINVARIANT WalkOk\nINVARIANT Refines\nINVARIANT Lazy\nPROPERTY LazyStep\nCHECK_DEADLOCK FALSE\n" % n)
+    r = vlib.tlc_mc(MC_KEYTABLE, cfg, name="c15keytable", timeout=3000, extra=["-noGenerateSpecTE"])
+    res.add_mc(r, "MC_KeyTable (KeyTableImpl = XSLT 12.2: walk tests every node once in document order; every key() call in every table state; tables built once; all shapes <= %d nodes)" % n)
+    gn = 6 if quick else 7
+    gcfg = os.path.join(wd, "keytable_gen.cfg")
+    open(gcfg, "w").write("SPECIFICATION SpecShapes\nCONSTANTS N = %d\nVIEW ShapeView\nCHECK_DEADLOCK FALSE\n" % gn)
+    dump = os.path.join(wd, "keytable_gen")
+    g = vlib.tlc(MC_KEYTABLE, gcfg, workers=1, name="c15keytablegen", timeout=3000, extra=["-noGenerateSpecTE", "-dump", dump])
+    if not g["ok"]:
+        raise vlib.Infra("MC_KeyTable shape export failed: " + g["out"][-2000:])
+    shapes = [st["docs"][0] for st in tlaparse.read_dump(dump + ".dump", only={"docs"})]
+    shapes.sort(key=lambda t: json.dumps(t, sort_keys=True, default=list))
+    if len(shapes) < 50:
+        raise vlib.Infra("MC_KeyTable exported only %d shapes" % len(shapes))
+    return [shape_doc(t) for t in shapes]
+
+
+def shape_doc(t):
+    """an abstract shape [n, kind, parent] as a real document: elements a / b / c by depth, attributes x, y, z ..., other children as text /
+    comment / processing instruction (never two text nodes in a row, no text under the root)"""
+    n, kind, parent = t["n"], list(t["kind"]), list(t["parent"])
+    nodes = {1: xdm.R()}
+    depth = {1: 0}
+    for i in range(2, n + 1):
+        par = nodes[parent[i - 1]]
+        k = kind[i - 1]
+        depth[i] = depth[parent[i - 1]] + 1
+        if k == "attr":
+            a = xdm.A("xyzuvw"[len(par["a"]) % 6] + ("" if len(par["a"]) < 6 else str(len(par["a"]))), str(len(par["a"]) + 1))
+            par["a"].append(a); nodes[i] = a
+            continue
+        if k == "elem":
+            e = xdm.E("abc"[(depth[i] - 1) % 3])
+        else:
+            prev = par["c"][-1] if par["c"] else None
+            under_root = parent[i - 1] == 1
+            if not under_root and (prev is None or prev["k"] != "text") and i % 3 != 0:
+                e = xdm.T("t%d" % i)
+            elif i % 2 == 0:
+                e = xdm.C("c%d" % i)
+            else:
+                e = xdm.PI("t", "d%d" % i)
+        par["c"].append(e); nodes[i] = e
+    return nodes[1]
+
+
+ALLNODES = bin_("|", bin_("|", path([], abs_=True), path([step("child", T_NODE)])), path([step("attribute", T_ANY)]))
+
+
+def shape_cases(rng, shape_ix, ndocs):
+    """per exported shape: a key that indexes EVERY node under one value (the walk must reach each node exactly once), one that indexes the
+    attributes under their names and one that indexes the elements under their number of attributes; asked in the main document, in the
+    other document and across"""
+    P = lambda *steps, **kw: path(list(steps), **kw)
+    out = []
+    for j, d1 in enumerate(shape_ix):
+        d2 = shape_ix[(j + 7) % len(shape_ix)]
+        decls = [{"name": "k", "match": ALLNODES, "use": lit("v"), "mod": "main"},
+                 {"name": "j", "match": P(step("attribute", T_ANY)), "use": fn("name"), "mod": "main"},
+                 {"name": "N", "match": P(step("child", T_ANY)), "use": fn("count", P(step("attribute", T_ANY))), "mod": rng.choice(["main", "imp"])}]
+        lks = [{"name": "k", "arg": lit("v"), "where": "main"}, {"name": "j", "arg": lit(rng.choice("xyz")), "where": "main"},
+               {"name": "N", "arg": num(rng.randint(0, 2)), "where": "main"},
+               {"name": "k", "arg": lit("v"), "where": "other"}, {"name": "j", "arg": path([dict(DOS), step("attribute", T_ANY)], abs_=True), "where": "other"},
+               {"name": "k", "arg": lit("v"), "where": "cross"}]
+        rng.shuffle(lks)
+        out.append((decls, lks, d1, d2))
+    return out
+
+
 def run(res, tier, seed):
     rng = random.Random(seed)
     quick = tier == "quick"
     wd = vlib.workdir("c15-%d" % os.getpid())
     c02.mc_laws(res, tier, wd)
+    shapes = keytable_model(res, wd, quick)
     docs = c02.make_docs(rng, 4 if quick else 20)
+    shape_ix = list(range(len(docs), len(docs) + len(shapes)))
+    docs += shapes
     flats = [xdm.flatten(t, c02.ID_ATTRS) for t in docs]
     nbase = 120 if quick else 2500
     cases, metas = [], []
     k = 0
+    plan = []
     for _ in range(nbase):
         decls = gen_decls(rng)
         lookups = gen_lookups(rng, rng.randint(2, 5), decls)
         d1, d2 = rng.sample(range(len(docs)), 2)
         orders = [lookups, list(reversed(lookups))]
         sh = list(lookups); rng.shuffle(sh); orders.append(sh)
+        plan.append((decls, orders, d1, d2))
+    for decls, lks, d1, d2 in shape_cases(rng, shape_ix, len(docs)):
+        plan.append((decls, [lks], d1, d2))
+    res.cov["walk_shapes_replayed"] = len(shape_ix)
+    for decls, orders, d1, d2 in plan:
         for lks in orders:
             cdir = os.path.join(wd, "case%d" % k)
             os.makedirs(cdir)
